@@ -66,7 +66,7 @@ def digest_list(seed, ids):
 def run(ctx):
     import random
     c11.arm_setattr(ctx)
-    ids = [i for i in range(ctx.size(128, 4000)) if ctx.mine(i)]
+    ids = [i for i in range(ctx.size(256, 20000)) if ctx.mine(i)]
     mine = {}
     for i in ids:
         rng = random.Random(f"C15/{ctx.seed}/doc/{i}")
